@@ -1,4 +1,5 @@
 import SSVerif.Model.Fmt3
+set_option linter.unusedSimpArgs false
 /-! # Lemmas about `%.3f` rendering (`Model/Fmt3.lean`): digits, round-half-even, recogniser acceptance -/
 namespace SSVerif.Fmt3
 open SSVerif.Json
